@@ -197,3 +197,15 @@ prop(
     assumptions=["YAML decoding is library code (model starts at the decoded value)",
                  "os.Setenv/Unsetenv semantics; the environment is process-global, so the run-time part uses keys private to the harness"],
 )
+
+VIEWS_ACCESS = ("internal/run/views", "views_access.go")
+
+prop(
+    id="C19",
+    stages=[dict(name="c19", pkg="c19", test="TestC19", access=[VIEWS_ACCESS, RUN_ACCESS], timeout_quick=300, timeout_thorough=3000)],
+    rule="generated ProgressData / ResultData (counts 0..2^40, durations 0, sub-microsecond .. hours, negative, rounding boundaries x.5s; periods incl. 0; errors incl. empty and template-like text; "
+         "inconsistent hand-built totals incl. 0), exit and setup/teardown lines, in both colour modes: Render() bytes equal the model's bytes exactly; Log() captured through a JSON handler and compared field by field; "
+         "Result.Summary()/Progress() built from snapshots (glue) compared with verdict+render of the models; non-trivial = progress/result/glue cases; distinct = distinct argument tuples",
+    assumptions=["text/template and fmt are re-implemented for the verbs in use (%5d %5s %0.2f, Stringer) and tied by exact byte comparison",
+                 "uint64(float) conversion for negative values as on amd64", "the tty/notty choice is forced through an accessor (Template() looks at the real stdin)"],
+)
